@@ -20,6 +20,7 @@ static hist_t g_hist;
 
 static void table_hist(int codec, hist_t* h) {
     memset(h, 0, sizeof *h); h->ncols = 3; h->cols[0] = TBL_KINDS[1]; h->cols[1] = TBL_KINDS[5]; h->cols[2] = TBL_KINDS[10]; h->cols[0].name = "a"; h->cols[1].name = "b"; h->cols[2].name = "c";
+    if (codec >= 100) { codec -= 100; h->N = 18; h->nrg = 9; for (int g = 0; g < 9; g++) h->rg_rows[g] = 2; h->mask[0] = 0x2492; h->mask[1] = 0x1249; h->codec = codec; h->page_sel = 1; return; }     /* nine row groups: the writer's row-group table grows 4 -> 8 -> 16 */
     h->N = 9; h->nrg = 3; h->rg_rows[0] = 3; h->rg_rows[1] = 4; h->rg_rows[2] = 2; h->mask[0] = 0x92; h->mask[1] = 0x25; h->comp[0] = 0x0a; h->comp[1] = 0x11; h->comp[2] = 0x44; h->codec = codec; h->page_sel = 1; h->pattern = 0;
 }
 
@@ -117,7 +118,7 @@ static void judge(const scn_t* s, long k1, long k2, const obs_t* base, long base
 }
 
 static void enumerate(void) {
-    mc_rule("C19: scenarios = schema build (70 columns), write of a 3-row-group, 3-column nullable table per codec (5), open + full column read per I/O mode (3) x codec (5), batch read per I/O mode x 2 codecs, dictionary-encoded file read per I/O mode x 2 codecs. "
+    mc_rule("C19: scenarios = schema build (70 columns), write of a 3-row-group, 3-column nullable table per codec (5) and of a 9-row-group table, open + full column read per I/O mode (3) x codec (5), batch read per I/O mode x 2 codecs, dictionary-encoded file read per I/O mode x 2 codecs. "
             "K = allocation requests the library (and zlib/zstd on its behalf) makes in the fault-free run; every k in 1..K fails once (quick and thorough); all pairs k1<k2 for the scenarios with K <= 100 (quick) / all scenarios (thorough). Oracle: no crash / ASan report (child process), "
             "all handles are then closed/freed, the number of live library allocations afterwards does not exceed the fault-free steady state, and either some call reported an error or the result (file bytes / values read) is identical to the fault-free run. "
             "One mc case per (scenario, k); evaluations = fault points. Non-trivial = every fault point that was reached; distinct by (scenario, k1, k2).");
@@ -125,6 +126,7 @@ static void enumerate(void) {
     static scn_t S[64]; int ns = 0; static const int CD[] = { 0, 1, 2, 5, 6 }; static const char* CN[] = { "uncompressed", "snappy", "gzip", "lz4", "zstd" }; static const char* MN[] = { "buffer", "fread", "mmap" }; static char names[64][48];
     S[ns] = (scn_t){ K_SCHEMA, 0, 0, "schema-build" }; ns++;
     for (int c = 0; c < 5; c++) { snprintf(names[ns], 48, "write.%s", CN[c]); S[ns] = (scn_t){ K_WRITE, CD[c], 0, names[ns] }; ns++; }
+    snprintf(names[ns], 48, "write.nine-row-groups.uncompressed"); S[ns] = (scn_t){ K_WRITE, 100, 0, names[ns] }; ns++;
     for (int m = 0; m < 3; m++) for (int c = 0; c < 5; c++) { snprintf(names[ns], 48, "read.%s.%s", MN[m], CN[c]); S[ns] = (scn_t){ K_READ, m, CD[c], names[ns] }; ns++; }
     for (int m = 0; m < 3; m++) for (int c = 0; c < 5; c += 4) { snprintf(names[ns], 48, "batch.%s.%s", MN[m], CN[c]); S[ns] = (scn_t){ K_BATCH, m, CD[c], names[ns] }; ns++; }
     for (int m = 0; m < 3; m++) for (int c = 0; c < 2; c++) { snprintf(names[ns], 48, "dict-read.%s.%s", MN[m], c ? "snappy" : "uncompressed"); S[ns] = (scn_t){ K_DICTREAD, m, c ? CODEC_SNAPPY : CODEC_NONE, names[ns] }; ns++; }
